@@ -129,6 +129,7 @@ type FnV struct {
 	tsubstStack []map[*types.TypeParam]types.Type
 	wrap bool
 	fround bool // float64 operations carry a relative rounding error (floats rounded)
+	froundOps [][2]string // (exact term, rounded constant) of every rounded operation so far
 	mulHints map[string]bool
 	wrapUnsigned bool
 	noF2I bool
